@@ -329,7 +329,10 @@ def timeout_base(rng: random.Random, i: int) -> dict:
     if rng.random() < 0.3:
         # top-level code waits for ONE handler result of the root (`await event.event_results[id]`) while that handler is still
         # pending behind an earlier one; the result's timeout clock starts with the wait, the handler's own only when it starts
-        sc['actors'].append([['sleep', rng.choice([0.01, 0.06])], ['await_hresult', 0, 0, rng.choice([1, 2])], ['sleep', 0.3], ['access', 0]])
+        # (the LAST handler of the root, which itself awaits a child with a slow handler, is the one waited for)
+        sc['handlers'].append({'bus': 0, 'pat': 0, 'kind': 'async', 'prog': [['sleep', 0.05], ['disp', 3, rng.randrange(nb), 'await', None, {}], ['sleep', 0.05]]})
+        sc['handlers'].append({'bus': rng.randrange(nb), 'pat': 3, 'kind': 'async', 'prog': [['sleep', 0.3]]})
+        sc['actors'].append([['sleep', rng.choice([0.01, 0.06])], ['await_hresult', 0, 0, rng.choice([-1, -1, 1, 2])], ['sleep', 0.3], ['await_hresult', 0, 0, 0]])
     if rng.random() < 0.25:
         # an event object created and dispatched by top-level code (queued behind the root) that a handler of the root passes on to
         # a further bus and awaits: it has several handlers there, so a timeout can hit while the first is running
